@@ -199,6 +199,86 @@ pub fn show_result(r: Result<(u64, SolutionSet), PredicatesError<StErr>>) -> Str
     }
 }
 
+fn dup_slot(sols: &[Solution]) -> Option<String> {
+    let mut seen = std::collections::HashSet::new();
+    for s in sols {
+        for m in &s.state_mutations {
+            if !seen.insert((s.predicate_to_solve.contract.clone(), m.key.clone())) {
+                return Some(format!("{}", show_words(&m.key)));
+            }
+        }
+    }
+    None
+}
+
+fn two_pass_raw(c: &CheckCase, sols: Vec<Solution>) -> Result<(u64, SolutionSet), PredicatesError<StErr>> {
+    let preds = c.preds.clone();
+    let get_pred = move |a: &PredicateAddress| preds.get(a).cloned().unwrap_or_default();
+    let progs = c.progs.clone();
+    let get_prog = move |a: &ContentAddress| progs.get(a).cloned().unwrap_or_default();
+    chks::check_and_compute_solution_set_two_pass(
+        &c.state,
+        SolutionSet { solutions: sols },
+        get_pred,
+        get_prog,
+        Arc::new(CheckPredicateConfig { collect_all_failures: c.collect_all }),
+    )
+}
+
+/// C04: content address, set validation and two-pass result of a set and of a reordering of it
+pub fn perm_oracle(c: &CheckCase, perm: &[usize]) -> String {
+    let n = c.sols.len();
+    let mut sorted = perm.to_vec();
+    sorted.sort();
+    if sorted != (0..n).collect::<Vec<_>>() {
+        return "FAIL harness: not a permutation".into();
+    }
+    let a: Vec<Solution> = c.sols.clone();
+    let b: Vec<Solution> = perm.iter().map(|&i| c.sols[i].clone()).collect();
+    let sa = SolutionSet { solutions: a.clone() };
+    let sb = SolutionSet { solutions: b.clone() };
+    if essential_hash::content_addr(&sa) != essential_hash::content_addr(&sb) {
+        return "FAIL content address differs between the two orders".into();
+    }
+    let va = chks::check_set(&sa);
+    let vb = chks::check_set(&sb);
+    if va.is_ok() != vb.is_ok() {
+        return format!("FAIL check_set verdict differs: {:?} vs {:?}", va.is_ok(), vb.is_ok());
+    }
+    if va.is_err() {
+        return "ok rejected".into();
+    }
+    if let Some(k) = dup_slot(&a) {
+        return format!("FAIL check_set accepted a set with two mutations of one contract and key {k}");
+    }
+    let ra = two_pass_raw(c, a);
+    let rb = two_pass_raw(c, b);
+    match (ra, rb) {
+        (Ok((ga, seta)), Ok((gb, setb))) => {
+            if ga != gb {
+                return format!("FAIL gas differs: {ga} vs {gb}");
+            }
+            for (j, &i) in perm.iter().enumerate() {
+                if seta.solutions[i].state_mutations != setb.solutions[j].state_mutations {
+                    return format!(
+                        "FAIL mutations of solution {i} differ between the orders: {:?} vs {:?}",
+                        seta.solutions[i].state_mutations, setb.solutions[j].state_mutations
+                    );
+                }
+            }
+            if let Some(k) = dup_slot(&seta.solutions) {
+                return format!("FAIL the returned set proposes two values for one contract and key {k}");
+            }
+            if chks::check_set(&seta).is_err() && seta.solutions.iter().all(|s| s.state_mutations.len() <= 1000) {
+                return format!("FAIL the returned set is rejected by check_set: {:?}", chks::check_set(&seta));
+            }
+            "ok accepted".into()
+        }
+        (Err(_), Err(_)) => "ok failed".into(),
+        (ra, rb) => format!("FAIL two-pass verdict differs between the orders: {} vs {}", show_result(ra), show_result(rb)),
+    }
+}
+
 pub fn run_two_pass(c: &CheckCase) -> String {
     let preds = c.preds.clone();
     let get_pred = move |a: &PredicateAddress| preds.get(a).cloned().unwrap_or_default();
@@ -240,6 +320,17 @@ pub fn run(fam: &str, t: &mut Toks) -> Option<R<String>> {
                     p.join(" ")
                 };
                 Ok(if strip(&got) == strip(&exp) { "ok".into() } else { format!("FAIL got `{}` expected `{}`", got, exp) })
+            }
+            "o_perm" => {
+                // C04: the same set with its solutions reordered: perm[j] = index (in the given order) of the solution placed at j
+                let perm = t.list(|t| t.nat())?;
+                let fam = t.tok()?;
+                if fam != "twopass" {
+                    return Err("o_perm family".into());
+                }
+                let c = p_check_case(t)?;
+                t.done()?;
+                Ok(perm_oracle(&c, &perm))
             }
             "topo" => {
                 // observable through check_predicate with an empty program at every node:
